@@ -623,7 +623,11 @@ impl DrawExecutor {
         };
 
         for ch in string_parameter.chars() {
-            let data = self.font_8px.get_glyph(ch).unwrap().data.clone();
+            // characters the 8 pixel font has no glyph for are drawn as blanks
+            let data = match self.font_8px.get_glyph(ch).or_else(|| self.font_8px.get_glyph(' ')) {
+                Some(glyph) => glyph.data.clone(),
+                None => continue,
+            };
             for y in 0..font_size.height {
                 for x in 0..font_size.width {
                     let iy = (y as f32 / font_size.height as f32 * char_size.height as f32) as i32;
